@@ -7,6 +7,8 @@
 (* can inject between the two sessions.                                    *)
 (*   dir    "publish" (PUBLISH -> EVENT), "call" (CALL -> INVOCATION),     *)
 (*          "result" (YIELD -> RESULT), "error" (ERROR back to the caller) *)
+(*          "progress" (progressive YIELD -> RESULT; the fault hits the    *)
+(*          progressive message only, the final result arrives untouched)  *)
 (*   layout "default" (one default key), "prefix" (a key for the URI       *)
 (*          prefix), "split" (originator-only key at the originator,       *)
 (*          responder-only key at the responder), "nokey" (no key covers   *)
@@ -17,7 +19,7 @@
 (***************************************************************************)
 EXTENDS Naturals, TLC
 
-Dirs == {"publish", "call", "result", "error"}
+Dirs == {"publish", "call", "result", "error", "progress"}
 Layouts == {"default", "prefix", "split", "nokey"}
 Faults == {"none", "tamper", "wrongkey", "uriswap"}
 
@@ -32,7 +34,10 @@ Expect(dir, layout, fault) ==
   IF ~Keyed(layout) \/ fault = "none"
   THEN [enc |-> Keyed(layout), delivered |-> "exact",
         call |-> CASE dir = "publish" -> "na" [] dir = "error" -> "apperror" [] OTHER -> "ok"]
-  ELSE [enc |-> TRUE, delivered |-> "none", call |-> IF dir = "publish" THEN "na" ELSE "encerror"]
+  ELSE [enc |-> TRUE, delivered |-> "none",
+        call |-> CASE dir = "publish" -> "na"
+                   [] dir = "progress" -> "ok"        \* on_progress is not fired; the untouched final result completes the call
+                   [] OTHER -> "encerror"]
 
 VARIABLES dir, layout, fault
 vars == <<dir, layout, fault>>
@@ -41,5 +46,5 @@ Next == UNCHANGED vars
 Spec == Init /\ [][Next]_vars
 \* never both: altered payload delivered, or a faulted call reported as success
 NeverAltered == Expect(dir, layout, fault).delivered \in {"exact", "none"}
-FaultNeverSucceeds == (Keyed(layout) /\ fault # "none" /\ dir # "publish") => Expect(dir, layout, fault).call = "encerror"
+FaultNeverSucceeds == (Keyed(layout) /\ fault # "none" /\ dir \notin {"publish", "progress"}) => Expect(dir, layout, fault).call = "encerror"
 =============================================================================
